@@ -896,10 +896,14 @@ func main() {
 		r.Part("E1-two-sessions-preemption-bounded", func(t *explore.T) {
 			b := t.Pick(2, 3)
 			t.Bound(b)
-			for _, m := range mixes2 {
-				runMix(t, m, all, ref, explore.ExploreOpts{Bound: b}, false)
+			for i, m := range mixes2 {
+				bm := b
+				if i >= 12 && bm > 2 {
+					bm = 2 // the mixes added later keep the quick bound in the thorough tier as well (cost)
+				}
+				runMix(t, m, all, ref, explore.ExploreOpts{Bound: bm}, false)
 			}
-			t.Note(fmt.Sprintf("all interleavings with <=%d preemptions of every two-session mix; scheduling points before and after every Get/Put of the shimmed sync.Pool; pool in poisoning LIFO mode", b))
+			t.Note(fmt.Sprintf("all interleavings with <=%d preemptions of the twelve basic two-session mixes and <=2 of the others; scheduling points before and after every Get/Put of the shimmed sync.Pool; pool in poisoning LIFO mode", b))
 		})
 		r.Part("E2-three-sessions-preemption-bounded", func(t *explore.T) {
 			b := t.Pick(1, 2)
